@@ -639,3 +639,104 @@ Inductive specified_path : json -> bool -> list step -> Prop :=
 | sp_idx tl i t p :
     nth_error tl i = Some t -> specified_path t false p ->
     specified_path (JList tl) false (SIdx i :: p).
+
+(* ---- hypotheses on targets (C04; C05's "after a patch") ---- *)
+
+(* a key of a keyed view / of a target that the loop treats as an ordinary key *)
+Definition plain_key (k : string) : bool :=
+  negb (is_directive k) && negb (String.eqb k K_OWNERS).
+
+(* an element of a compare-as-map list: a map whose key fields are present
+   scalars with a modelled f-string, and whose key is an ordinary key *)
+Definition elem_ok (fields : list json) (o : json) : bool :=
+  match o with
+  | JMap okvs =>
+      forallb (fun f => match f with
+                        | JStr s => plain_key s &&
+                                    match lookup s okvs with
+                                    | Some v => negb (is_container v)
+                                    | None => false
+                                    end
+                        | _ => false
+                        end) fields &&
+      match obj_key o fields with
+      | Ret ke => plain_key ke
+      | _ => false
+      end
+  | _ => false
+  end.
+
+(* well-formed target: unique keys, readable directives, set-directed lists
+   hold scalars ("simple" types, as documented), compare-as-map lists hold
+   maps with scalar key fields *)
+Fixpoint good (t : json) : bool :=
+  match t with
+  | JList l => forallb good l
+  | JMap tk =>
+      nodup_str (map fst tk) &&
+      match dirs_of tk with
+      | None => false
+      | Some (sk, _, cfg) =>
+          (fix go (l : list (string * json)) : bool :=
+             match l with
+             | [] => true
+             | (k, v) :: r =>
+                 (if plain_key k then
+                    match lookup k cfg with
+                    | Some fields =>
+                        match v with
+                        | JList objs => forallb (fun o => elem_ok fields o && good o) objs
+                        | _ => false
+                        end
+                    | None =>
+                        (if mem_str k sk
+                         then match v with JList xs => forallb hashable xs | _ => true end
+                         else true) && good v
+                    end
+                  else true) && go r
+             end) tk
+      end
+  | _ => true
+  end.
+
+(* no explicit nulls (the property's quantifier) *)
+Fixpoint no_nulls (t : json) : bool :=
+  match t with
+  | JNull => false
+  | JList l => forallb no_nulls l
+  | JMap kvs =>
+      (fix go (l : list (string * json)) : bool :=
+         match l with
+         | [] => true
+         | (_, v) :: r => no_nulls v && go r
+         end) kvs
+  | _ => true
+  end.
+
+(* [sup t x]: x contains every field target t specifies, with the value t
+   gives it (what the API server holds after it stored what was sent for t,
+   plus anything else); ownerReferences keys and directive keys of t do not
+   constrain x *)
+Inductive sup : json -> json -> Prop :=
+| sup_scalar t : is_container t = false -> sup t t
+| sup_list tl xl : Forall2 sup tl xl -> sup (JList tl) (JList xl)
+| sup_map tk xk :
+    (forall k tv, In (k, tv) tk -> plain_key k = true ->
+       exists xv, lookup k xk = Some xv /\ sup tv xv) ->
+    sup (JMap tk) (JMap xk).
+
+(* the target does not itself specify the last-applied annotation *)
+Definition ann_free (t : json) : bool :=
+  match t with
+  | JMap tk =>
+      match lookup "metadata" tk with
+      | Some (JMap md) =>
+          match lookup "annotations" md with
+          | Some (JMap an) =>
+              match lookup last_applied_key an with None => true | Some _ => false end
+          | _ => true
+          end
+      | _ => true
+      end
+  | _ => true
+  end.
